@@ -1,7 +1,7 @@
 (** C16: the theorems, stated about the functions generated from the current source. *)
 From Coq Require Import Ascii String List Bool Arith ZArith NArith Lia.
 From PTBase Require Import Exn PyStr PyNum PyVal.
-From PTModel Require Import Fortran.
+From PTModel Require Import Fortran FortranNF FortranRender.
 From Gen Require Import GenFortran.
 From P Require Import Spec.
 Import ListNotations.
@@ -31,7 +31,22 @@ Proof. intros I F. rewrite gen_fortran_float_spec, (ff_bad_char _ _ _ I F). refl
 Lemma fi_bad s c bv : In c s -> int_char c = false -> gen_fortran_int (VStr s) bv = Ok VNone.
 Proof. intros I F. rewrite gen_fortran_int_spec, (fi_bad_char _ _ _ I F). reflexivity. Qed.
 
+(** normal form: for every non-blank text the result depends only on norm (strip s) *)
+Lemma ff_nf s bv : strip s <> [] -> gen_fortran_float (VStr s) bv = Ok (VFloat (cascade (norm (strip s)))).
+Proof. intro H. rewrite gen_fortran_float_spec, (ff_normal_form _ _ H). reflexivity. Qed.
+Lemma ff_norm_only s s' bv : strip s <> [] -> strip s' <> [] -> norm (strip s) = norm (strip s') ->
+  gen_fortran_float (VStr s) bv = gen_fortran_float (VStr s') bv.
+Proof. intros H H' E. rewrite !ff_nf by assumption. rewrite E. reflexivity. Qed.
+Lemma ff_renderings s bv sg ip fp x : wf_mant ip fp -> wf_expo x -> strip s <> [] ->
+  norm (strip s) = canon sg ip fp x -> gen_fortran_float (VStr s) bv = Ok (VFloat (canon_value sg ip fp x)).
+Proof. intros W Wx NE E. rewrite gen_fortran_float_spec, (ff_reads_fortran_reals s bv sg ip fp x W Wx NE E). reflexivity. Qed.
+
 (** non-vacuity: concrete strings meeting the hypotheses *)
+Example ex_render : strip (s2l "  -0.1234D+05 ") <> [] /\
+  norm (strip (s2l "  -0.1234D+05 ")) = canon (Some true) (s2l "0") (s2l "1234") (XLetter (Some false) (s2l "05")) /\
+  wf_mant (s2l "0") (s2l "1234") /\ wf_expo (XLetter (Some false) (s2l "05")).
+Proof. repeat split; try (vm_compute; congruence); try (left; discriminate); vm_compute; reflexivity. Qed.
+
 Example ex_bad : In "*" (s2l " ******") /\ numeric_char "*" = false /\ int_char "*" = false.
 Proof. cbn. tauto. Qed.
 Example ex_blank : strip (s2l "     ") = [].
